@@ -90,6 +90,15 @@ theorem run_success_fields (evs : List Ev) :
         rcases setFields_holds l fs v p h1 with ⟨a, b⟩ | ⟨a, b⟩
         · left; exact ⟨Or.inl a, b⟩
         · right; exact ⟨a, fun hh => hh.elim b h2⟩
+    | touchUnlocked fs =>
+      simp only [runFrom, Ev.isFail, Bool.false_eq_true, ite_false, Ev.fields] at hs hp
+      have hw : writes (Ev.touchUnlocked fs :: rest) = writes rest := by simp [writes]
+      rw [hw]
+      rcases ih _ _ _ _ hs p hp with h | ⟨h1, h2⟩
+      · left; exact h
+      · rcases setFields_holds l [] v p h1 with ⟨a, _⟩ | ⟨a, _⟩
+        · cases a
+        · right; exact ⟨a, h2⟩
 
 /-- **A successful reload puts every configuration-carrying field at the new version.** -/
 theorem ok_reload_all_new (evs : List Ev) (failAt : Option Nat) (l : Live) (v : Ver)
